@@ -56,7 +56,7 @@ func NewExchange(ver version.Version, uri string, method string, requestHeaders 
 func (e *Exchange) MiEncodePayload(recordSize int) error {
 	enc := e.Version.MiceEncoding()
 
-	if e.ResponseHeaders.Get(enc.DigestHeaderName()) != "" {
+	if len(e.ResponseHeaders.Values(enc.DigestHeaderName())) != 0 {
 		return fmt.Errorf("signedexchange: response already has %q header", enc.DigestHeaderName())
 	}
 	var buf bytes.Buffer
